@@ -361,7 +361,8 @@ def mutation_rules(chk, hs):
         falls_back = any(isinstance(x, ast.Call) and U(x.func) == "qfallback" for x in ast.walk(disp))
         # the mutation test has to govern the fallback: every path that returns qfallback(...) has decided "not mutating" on its way
         def _is_mut_atom(a: str) -> bool:
-            return any(k in a for k in ("is_mutable", "is_write", "alias_info", ".endswith('_')"))
+            # a single test, not a conjunction that merely mentions it (the falsity of `is_mutable and <other>` says nothing about is_mutable)
+            return any(k in a for k in ("is_mutable", "is_write", "alias_info", ".endswith('_')")) and " and " not in a and " or " not in a
         fb_paths = [p_ for p_ in paths_of(disp) if p_.end and p_.end[0] == "return" and isinstance(p_.end[1], ast.Call) and U(p_.end[1].func) == "qfallback"]
         tells_mutation = bool(fb_paths) and all(any(_is_mut_atom(str(a)) and pol is False for c, t, _ in p_.conds for a, pol in atoms(c, t)) for p_ in fb_paths)
         # ... and the write-back fallback, where there is one, leaves a quantized destination to the out-of-place fallback on no path
